@@ -25,6 +25,7 @@ RULE = (
     "backlogs of 1..40 elements and the k-th consecutive buffered delivery (k<=32) cancelled half-way; a case is non-trivial when an enqueue happens while a receive is pending, a pending receive is "
     "cancelled, or the queue is finished while a receive is pending; distinct = distinct op sequence"
 )
+RULE += '; __anext__ is called when the receive is issued (first step later); elements may be exception instances'
 LEVEL_TEXT = (
     "Every operation sequence up to length 5 (quick) / 7 (thorough) is executed against the real AsyncQueue on a "
     "deterministic loop and compared with a FIFO reference; longer histories (<=40) are sampled. Exhaustive within "
@@ -55,7 +56,8 @@ class FalsyErr(Exception):
 
 
 # the first few elements are falsy / None (legal elements); all are pairwise distinct under ==
-_SPECIAL = [None, 0, "", ()]
+# ... and a few are exception INSTANCES (a queue of results-or-errors): elements like any other, never raised
+_SPECIAL = [None, QErr("an element"), 0, asyncio.CancelledError("an element"), "", StopAsyncIteration("an element"), (), FalsyErr("an element")]
 
 
 def _element(i):
@@ -120,11 +122,23 @@ def run_case(case) -> Outcome:
         pending = None  # outstanding receive task
         pending_cancel_requested = False
 
-        async def receive():
+        def receive():
+            # q.__anext__() is CALLED now (as `ensure_future(q.__anext__())` / `anext(q)` does), the returned awaitable takes
+            # its first step only when the loop runs the task: operations in between must not be missed by the receive
             try:
-                return ("val", await q.__anext__())
-            except BaseException as exc:  # noqa: BLE001 - observation, classified below
-                return ("exc", exc)
+                aw = q.__anext__()
+            except BaseException as exc:  # noqa: BLE001
+                aw = exc
+
+            async def run():
+                if isinstance(aw, BaseException):
+                    return ("exc", aw)
+                try:
+                    return ("val", await aw)
+                except BaseException as exc:  # noqa: BLE001 - observation, classified below
+                    return ("exc", exc)
+
+            return run()
 
         def reason_matches(exc) -> bool:
             if reason is None:
